@@ -88,7 +88,62 @@ def bounded_cyclic_arguments(tier, seed):
     return {'name': 'cyclic / shared argument containers keep their shape', 'bound': '5 enumerated shapes', 'cases': cases, 'failures': failures, 'label': 'bounded'}
 
 
-BOUNDED = [bounded_cyclic_arguments]
+
+def bounded_fill_shapes(tier, seed):
+    """Fill mode rebuilds containers of the same shape with every embedded T leaf replaced by its value -- in value, item AND key position,
+    at any depth -- against a direct recursive oracle.  Bound: random literals of depth <= 3 (quick 300, thorough 3000) over
+    dict / list / tuple / set / frozenset with T leaves and constants; keys are constants, T leaves, tuples and frozensets of them."""
+    import random
+    from glom import glom as G, T, Fill, Auto
+    rnd = random.Random(seed or 1)
+    target = {'a': 1, 'b': ['x', 'y'], 'c': {'d': 'dee'}}
+    leaves = [(T['a'], 1), (T['b'][0], 'x'), (T['c']['d'], 'dee'), ('lit', 'lit'), (7, 7), (None, None)]
+    def gen_key(depth):
+        r = rnd.random()
+        if r < 0.5 or depth <= 0:
+            return rnd.choice(leaves)
+        parts = [gen_key(depth - 1) for _ in range(rnd.randint(1, 2))]
+        if r < 0.8:
+            return tuple(p[0] for p in parts), tuple(p[1] for p in parts)
+        return frozenset(p[0] for p in parts), frozenset(p[1] for p in parts)
+    def gen(depth):
+        r = rnd.random()
+        if depth <= 0 or r < 0.3:
+            return rnd.choice(leaves)
+        kind = rnd.choice(['dict', 'list', 'tuple', 'set', 'frozenset'])
+        if kind == 'dict':
+            ks = [gen_key(depth - 1) for _ in range(rnd.randint(1, 2))]
+            vs = [gen(depth - 1) for _ in ks]
+            try:
+                return {k[0]: v[0] for k, v in zip(ks, vs)}, {k[1]: v[1] for k, v in zip(ks, vs)}
+            except TypeError:
+                return rnd.choice(leaves)
+        items = [gen(depth - 1) if kind in ('list', 'tuple') else gen_key(depth - 1) for _ in range(rnd.randint(0, 3))]
+        ctor = {'list': list, 'tuple': tuple, 'set': set, 'frozenset': frozenset}[kind]
+        try:
+            return ctor(i[0] for i in items), ctor(i[1] for i in items)
+        except TypeError:
+            return rnd.choice(leaves)
+    fixed = [({(T['a'], T['b'][0]): T['c']['d']}, {(1, 'x'): 'dee'}), ({frozenset([T['a']]): [T['a']]}, {frozenset([1]): [1]}),
+             ({'k': {(T['a'], ('lit', T['a'])): 0}}, {'k': {(1, ('lit', 1)): 0}}), ([{T['a']: T['a']}], [{1: 1}])]
+    cases, failures = 0, []
+    for spec, want in fixed + [gen(3) for _ in range(3000 if tier == 'thorough' else 300)]:
+        for wrap in (lambda s: Fill(s), lambda s: ('c', Auto(T), lambda t: 0, Fill(s)) if False else {'out': Fill(s)}):
+            cases += 1
+            try:
+                got = G(target, wrap(spec))
+                got = got['out'] if isinstance(got, dict) and set(got) == {'out'} and not (isinstance(spec, dict) and set(spec) == {'out'}) else got
+            except Exception as e:
+                got = repr(e)
+            if got != want or type(got) is not type(want):
+                failures.append({'key': 'fill-shape', 'input': repr(spec)[:200], 'observed': repr(got)[:200], 'expected': repr(want)[:200], 'replay_code': None})
+                break
+        if len(failures) >= 3:
+            break
+    return {'name': 'Fill mode vs a recursive reconstruction oracle (T leaves in value, item and key position)', 'label': 'bounded', 'cases': cases,
+            'bound': '4 fixed + random literals of depth <= 3; plain and nested-in-Auto-dict use', 'failures': failures}
+
+BOUNDED = [bounded_cyclic_arguments, bounded_fill_shapes]
 ASSUMPTIONS = [
     'G-contract: a child evaluation leaves MODE / MIN_MODE of its parent frame alone (G3) -- the obligation side of this is the contract on _glom proved here: the child frame gets the parent values and wrappers write their own frame',
     'opaque user primitives; dict / list / tuple / set specs behave like builtins',
